@@ -40,7 +40,7 @@ def plan(tier):
             ("dim1", 2, (2000 if tier == "quick" else 40000) // 2)]
 
 
-VIAS = ("ctor", "ctor", "ctor", "setbounds", "used-setbounds", "history", "aliased", "int-typed")
+VIAS = ("ctor", "ctor", "ctor", "setbounds", "used-setbounds", "history", "aliased", "int-typed", "int-ctor-setbounds")
 vias = st.sampled_from(VIAS)
 
 
@@ -111,6 +111,11 @@ def make(n, m, lo=None, hi=None, via="ctor"):
         return Evolvent(lo, hi, n, m)
     if via == "history":
         return HistoryEvolvent(Evolvent(lo, hi, n, m), lo, hi)
+    if via == "int-ctor-setbounds":
+        # built for an integer box written with Python ints (as the repository's tests do), then re-configured
+        ev = Evolvent([-1] * n, [1] * n, n, m)
+        ev.SetBounds(list(lo), list(hi))
+        return ev
     olo = [a + 0.25 * (b - a) - 1.0 for a, b in zip(lo, hi)]
     ohi = [b + 1.5 * (b - a) + 2.0 for a, b in zip(lo, hi)]
     ev = Evolvent(olo, ohi, n, m)
